@@ -68,6 +68,9 @@ type Config struct {
 	Salt           int64    `json:"salt"`      // block seed salt (see Seed)
 	SeedMode       string   `json:"seedMode"`  // "hash" (default) | "zero" | "small"
 	WorldSeed      int64    `json:"worldSeed"` // key derivation
+	// RewardBase: the pool's TotalReward at genesis (a decimal string: the counter is far beyond 32 bits near the
+	// subsidy's halving points). "" = 0. The projection reports the counter relative to it.
+	RewardBase string `json:"rewardBase"`
 }
 
 func DefaultConfig() Config {
@@ -276,6 +279,13 @@ func (c *Chain) genesisState() ([]byte, error) {
 	ng := nodetypes.DefaultGenesis()
 	ng.Pool.TotalPledged = sdk.NewInt64Coin(Denom, 0)
 	ng.Pool.AccPledgePerByte = sdk.NewInt64DecCoin(Denom, 0)
+	if cfg.RewardBase != "" {
+		base, ok := sdk.NewIntFromString(cfg.RewardBase)
+		if !ok {
+			return nil, fmt.Errorf("bad rewardBase %q", cfg.RewardBase)
+		}
+		ng.Pool.TotalReward = sdk.NewCoin(Denom, base)
+	}
 	ng.Params.BlockReward = sdk.NewInt64Coin(Denom, cfg.BlockReward)
 	ng.Params.Baseline = sdk.NewInt64Coin(Denom, cfg.Baseline)
 	ng.Params.AnnualPercentageYield = cfg.APY
@@ -580,6 +590,7 @@ func (c *Chain) SpecConfig() map[string]interface{} {
 	}
 	sn, sd := ratio(c.Cfg.ShareThreshold)
 	an, ad := ratio(c.Cfg.APY)
+	age, toNext := rewardAgeOf(c.rewardBase())
 	return map[string]interface{}{
 		"accs": accs, "accsRaw": accsRaw, "datas": datas, "didOrder": dids, "vals": vals,
 		"blockReward": c.Cfg.BlockReward, "baseline": c.Cfg.Baseline, "apyNum": an, "apyDen": ad,
@@ -587,7 +598,40 @@ func (c *Chain) SpecConfig() map[string]interface{} {
 		"vstorThreshold": c.Cfg.VstorThreshold, "shareNum": sn, "shareDen": sd,
 		"offlineTrigger": c.Cfg.OfflineTrigger, "salt": c.Cfg.Salt, "seedMode": c.Cfg.SeedMode,
 		"fishmen": c.Cfg.Fishmen, "maxPenalty": c.Cfg.MaxPenalty,
+		"rewardAge": age, "toNextAge": toNext,
 	}
+}
+
+func (c *Chain) rewardBase() *big.Int {
+	b := new(big.Int)
+	if c.Cfg.RewardBase != "" {
+		b.SetString(c.Cfg.RewardBase, 10)
+	}
+	return b
+}
+
+// TotalRewardCap is x/node's TOTAL_REWARD (coins ever to be minted as block reward).
+const TotalRewardCap = "400000000000000"
+
+// rewardAgeOf computes, independently of the implementation, the subsidy's age for a pool that has minted `minted` coins:
+// the number of halvings so far, i.e. the largest k with minted >= total * (1 - 2^-k); 256 once everything is minted.
+// toNext is the number of coins still to be minted before the age increases (0 = too far for 32 bits, or exhausted).
+func rewardAgeOf(minted *big.Int) (age int64, toNext int64) {
+	total, _ := new(big.Int).SetString(TotalRewardCap, 10)
+	if minted.Cmp(total) >= 0 {
+		return 256, 0
+	}
+	remain := new(big.Int).Sub(total, minted)
+	// age = largest k with remain <= total / 2^k  (in integers: floor(total/remain) >= 2^k)
+	q := new(big.Int).Quo(total, remain)
+	age = int64(q.BitLen() - 1)
+	// next boundary: floor(total/remain') >= 2^(age+1)  <=>  remain' <= floor(total / 2^(age+1))
+	bound := new(big.Int).Rsh(total, uint(age+1))
+	d := new(big.Int).Sub(remain, bound)
+	if d.IsInt64() && d.Int64() < 1<<30 {
+		toNext = d.Int64()
+	}
+	return age, toNext
 }
 
 // ---------------------------------------------------------------------------
